@@ -195,7 +195,7 @@ def eval_expr(node: ast.AST, env: Dict[str, Any]) -> Any:
             try:
                 return _PURE_BUILTINS[fn](*args)
             except Exception as error:
-                raise Unknown(f"{key}: {error}")
+                raise _Raised(f"{type(error).__name__}: {error}")
         if isinstance(node.func, ast.Attribute) and node.func.attr in _PURE_METHODS and not node.keywords:
             v = eval_expr(node.func.value, env)
             if not isinstance(v, (str, bytes, bytearray, tuple, list, dict, set, frozenset)):
@@ -206,7 +206,7 @@ def eval_expr(node: ast.AST, env: Dict[str, Any]) -> Any:
             try:
                 return getattr(v, node.func.attr)(*args)
             except Exception as error:
-                raise Unknown(f"{key}: {error}")
+                raise _Raised(f"{type(error).__name__}: {error}")
         raise Unknown(norm(node))
     if isinstance(node, (ast.GeneratorExp, ast.ListComp, ast.SetComp)):
         if len(node.generators) != 1:
